@@ -145,6 +145,61 @@ def real_case(case):
         shutil.rmtree(d, ignore_errors=True)
 
 
+def reuse_case(case):
+    """HISTORY: one Local runner object runs several commands in a row, each with its own input text: every command
+    must receive exactly its own text followed by EOF"""
+    from invoke import Context, Config, Local
+    from invoke.exceptions import CommandTimedOut
+    r = Local(Context(Config()))
+    for i, text in enumerate(case["texts"]):
+        try:
+            res = r.run("cat", in_stream=io.StringIO(text), hide=True, encoding="utf-8", timeout=15, echo_stdin=False)
+        except CommandTimedOut:
+            return "run %d on one runner object: a command reading to EOF did not terminate" % i
+        if res.stdout != text:
+            return "run %d on one runner object: the command received %r, its input was %r" % (i, res.stdout[:40], text[:40])
+    return None
+
+
+def async_case(case):
+    """asynchronous run with an EXPLICIT input stream (which may be the sys.stdin object itself): the text must be
+    forwarded and EOF delivered; without an explicit stream nothing is forwarded"""
+    from invoke import Context, Config
+    from invoke.exceptions import CommandTimedOut
+    d = tempfile.mkdtemp(prefix="c13-")
+    old_stdin = sys.stdin
+    try:
+        p = os.path.join(d, "in.txt")
+        with open(p, "w") as f:
+            f.write(case["text"])
+        f = open(p, "r")
+        kw = {}
+        if case["how"] == "sys.stdin":
+            sys.stdin = f
+            kw["in_stream"] = sys.stdin
+        elif case["how"] == "explicit":
+            kw["in_stream"] = f
+        else:
+            sys.stdin = f  # not passed: asynchronous runs disconnect input by default
+        try:
+            pr = Context(Config()).run("cat", asynchronous=True, encoding="utf-8", timeout=8, **kw)
+            res = pr.join()
+        except CommandTimedOut:
+            if case["how"] == "default":
+                return None  # nothing forwarded, no EOF: cat is ended by the timeout - the documented default
+            return "asynchronous run with an explicit input stream (%s): the command never saw EOF" % case["how"]
+        finally:
+            f.close()
+        want = "" if case["how"] == "default" else case["text"]
+        if res.stdout != want:
+            return "asynchronous run (%s): the command received %r, expected %r" % (case["how"], res.stdout[:40], want[:40])
+        return None
+    finally:
+        sys.stdin = old_stdin
+        import shutil
+        shutil.rmtree(d, ignore_errors=True)
+
+
 def guarded(fn, case):
     try:
         return common.with_timeout(fn, 60, case)
@@ -162,6 +217,10 @@ def replay(case):
         why = guarded(disabled_case, case)
     elif k == "real":
         why = guarded(real_case, case)
+    elif k == "reuse":
+        why = guarded(reuse_case, case)
+    elif k == "async":
+        why = guarded(async_case, case)
     elif "sched" in case:
         o = runnerio.run_impl(case)
         why = oracle_gated(case, o, runnerio.impl_obs(case, o))
@@ -189,6 +248,10 @@ def run(ctx):
         for b in (False, True):
             for cmd in ("cat", "wc -c"):
                 extra.append({"kind": "real", "text": t, "bytes": b, "cmd": cmd})
+    extra.append({"kind": "reuse", "texts": ["one\n", "two é\n", "", "three\n"]})
+    extra.append({"kind": "reuse", "texts": ["", "x"]})
+    for how in ("sys.stdin", "explicit"):
+        extra.append({"kind": "async", "how": how, "text": "hello é\n"})
     for c in extra:
         out.case(c, True)
         out.hist["extra:" + c["kind"]] += 1
